@@ -181,6 +181,7 @@ Proof.
   intros seeded hist acts os A G. cbn [agrees C09_guard C09_ok] in *. unfold lossy_ok.
   destruct (l_strip seeded acts os) as [os'|]; [|discriminate].
   apply obs_list_eqb_eq in A. subst os'.
+  apply andb_true_iff in G. destruct G as [G _].
   unfold lossy_guard in G. apply andb_true_iff in G. destruct G as [G1 G2].
   apply per_id_sameb_sound in G1.
   destruct (reorder_preserves _ _ _ G1 G2) as [V _].
